@@ -10,15 +10,19 @@ from . import c10_formula as F10
 from . import c11_fractions as F11
 
 ID = "C12"
-RULE = ("Element (proportion 1..3), Substance (string, dict, or extended with add() after construction) and Material "
-        "(number-fraction mode: string/dict/add; mass-fraction mode as a separate class) with exactly one of mass / "
-        "number density in a random compatible unit (g/cm3 kg/m3 g/l kg/l lb/ft3; cm-3 m-3 l-1 mm-3) and an optional "
-        "volume (l ml cm3 m3 gal), plus the same physical input re-expressed in a second unit set. Oracle (formula-unit "
-        "mass M from the independent isotope-table expansion): rho = n M, the given density is reported unchanged, "
-        "mass = rho V, sum_i rho_i = rho, sum_i M_i = mass, n_i = amount_i n, N_i = n_i V, and all outputs identical "
-        "under the change of input units. Non-trivial: volume present and >=2 components, or non-default input units. "
-        "Round 4: substances with a proportion, fractional dict amounts after a sibling with the same symbols, add() inside an open with-block, number densities given in pm-3 / nm-3. "
-        "Distinct = distinct case JSON.")
+RULE = (
+    'Element (proportion 1..3), Substance (string, dict, or extended with add() after construction) and Material '
+    '(number-fraction mode: string/dict/add; mass-fraction mode as a separate class) with exactly one of mass / '
+    'number density in a random compatible unit (g/cm3 kg/m3 g/l kg/l lb/ft3; cm-3 m-3 l-1 mm-3) and an optional '
+    'volume (l ml cm3 m3 gal), plus the same physical input re-expressed in a second unit set. Oracle '
+    '(formula-unit mass M from the independent isotope-table expansion): rho = n M, the given density is reported '
+    'unchanged, mass = rho V, sum_i rho_i = rho, sum_i M_i = mass, n_i = amount_i n, N_i = n_i V, and all outputs '
+    'identical under the change of input units. Non-trivial: volume present and >=2 components, or non-default '
+    'input units. Round 4: substances with a proportion, fractional dict amounts after a sibling with the same '
+    'symbols, add() inside an open with-block, number densities given in pm-3 / nm-3. Later rounds: a refused '
+    'formula earlier in the process; data_matter() as quantities against the number table. Distinct = distinct '
+    'case JSON.'
+)
 ASSUMPTIONS = ["relative tolerance 1e-9", "composites have at least one component; densities and volumes are positive"]
 NT_FLOOR = 0.4
 
